@@ -1,5 +1,6 @@
 import SJ.Proofs.Tables
 import SJ.Proofs.ParseIff
+import SJ.Proofs.SpecTrim
 import SJ.Proofs.TrimEdgeAscii
 import SJ.Proofs.Number
 import SJ.Proofs.BlockScan
@@ -129,5 +130,12 @@ open SJ.TrimEdge SJ.ParseDefs in
 theorem C01_parse_rejects (cfg : Cfg) (input : Bytes) (he : EdgeOK input) (hsz : SizeOK (trimSpace input))
     (h : Spec.containerText (jsonTrim input).toList = .reject) : parse cfg input = .error .generic :=
   SJ.ParseIff.parse_rejects cfg input he hsz h
+
+
+open SJ.TrimEdge in
+/-- the specification itself ignores JSON white space at both ends as far as acceptance (and the accepted value) goes -/
+theorem C01_spec_ignores_edge_ws (l : List UInt8) (v : Spec.JVal) :
+    Spec.containerText (jsonTrimL l) = .accept v ↔ Spec.containerText l = .accept v :=
+  SJ.SpecTrim.containerText_trim_accept l v
 
 end SJ.Properties.C01
